@@ -4,7 +4,7 @@
    coq/C13/alt/ExitTruth.v.txt (count_stats position-aware) or alt/ExitRefuted.v.txt (substring). *)
 From Coq Require Import ZArith List String Bool.
 From Coq Require Import Permutation.
-From C13 Require Import Types Model Proofs ProofsUnused ProofsDisable ProofsExit ProofsOutput.
+From C13 Require Import Types Model Proofs ProofsUnused ProofsDisable ProofsExit ProofsOutput ProofsWatch ProofsRender.
 From Gen Require Import ErrorsCore.
 Import ListNotations.
 Open Scope list_scope.
@@ -121,6 +121,52 @@ Theorem printed_error_iff : forall srcloc hc snc o, errors_have_no_parent o ->
   (has_error (printed srcloc hc snc o) <-> visible_error o).
 Proof. exact printed_has_error_iff. Qed.
 Print Assumptions printed_error_iff.
+
+(* ---- ErrorWatchers ------------------------------------------------------------------------------ *)
+(* code shape in which the note attached to an admitted info is appended without asking the watcher stack again
+   (reentry = false): ignore_exact generalises to any stack of watchers ... *)
+Theorem ignore_exact_with_watchers : forall c ws E,
+  out (wcore (run_w false c ws E))
+  = flat_map (emit c) (dedup_once (filter (fun i => negb (stack_filters ws i) && visible c i) E)).
+Proof. exact ignore_exact_with_watchers_proof. Qed.
+Print Assumptions ignore_exact_with_watchers.
+
+(* ... and nothing a watcher observes (has_new_errors, filtered errors) depends on the ignore comments at all *)
+Theorem watchers_independent_of_ignores : forall c c' ws E,
+  wstack (run_w false c ws E) = wstack (run_w false c' ws E).
+Proof. exact watchers_independent_proof. Qed.
+Print Assumptions watchers_independent_of_ignores.
+
+(* code shape with re-entry (the note goes through _filter_error in _add_error_info): a comment that matches nothing
+   -- every info is classified exactly as before -- flips has_new_errors of an active watcher *)
+Theorem watcher_reentry_refuted :
+  has_ignores w_cfg = true /\ dict_has (ignores w_cfg) 8 = false /\
+  (forall i, In i [w_info] -> classify (add_ignore w_cfg 8 ["override"%string]) i = classify w_cfg i) /\
+  map wnew (wstack (run_w true (add_ignore w_cfg 8 ["override"%string]) w_stack [w_info]))
+  <> map wnew (wstack (run_w true w_cfg w_stack [w_info])).
+Proof. exact (watcher_reentry_witness true eq_refl). Qed.
+Print Assumptions watcher_reentry_refuted.
+
+(* ---- renderers: which messages appear does not depend on the output format ------------------------ *)
+(* text: the --pretty output minus its indented snippet lines is the plain output = one line per tuple;
+   json: create_errors keeps exactly the error-severity tuples (with a file), in order, and invents nothing
+   (notes become entries or hints of the latest error at their location) *)
+Theorem render_preserves_messages :
+  (forall line_of src_of marker_of ts, (forall t, is_snippet (line_of t) = false) ->
+     filter (fun s => negb (is_snippet s)) (format_text line_of src_of marker_of true ts)
+     = format_text line_of src_of marker_of false ts
+     /\ format_text line_of src_of marker_of false ts = map line_of ts) /\
+  (forall ts,
+     filter terror (map mtuple (create_errors ts)) = filter (fun t => terror t && has_file t) ts /\
+     (forall e, In e (map mtuple (create_errors ts)) -> In e ts)).
+Proof. split; [exact pretty_preserves_messages_proof | exact json_preserves_messages_proof]. Qed.
+Print Assumptions render_preserves_messages.
+
+Theorem json_error_iff : forall ts,
+  (exists e, In e (create_errors ts) /\ terror (mtuple e) = true)
+  <-> (exists t, In t ts /\ terror t = true /\ has_file t = true).
+Proof. exact json_has_error_iff. Qed.
+Print Assumptions json_error_iff.
 
 (* hypotheses are satisfiable, on non-trivial streams *)
 Definition ex_c : cfg := mk_cfg [(7, ["misc"%string])] true false [] [] [] [].
